@@ -205,6 +205,14 @@ class FA(Automaton, metaclass=abc.ABCMeta):
     ) -> Dict[str, Union[bytes, str]]:
         return self.show_diagram()._repr_mimebundle_(*args, **kwargs)
 
+    def _validate_reserved_names(self) -> None:
+        """
+        Raise an error if a name the library reserves for itself is used:
+        None marks the absence of a state.
+        """
+        if None in self.states:
+            raise exceptions.InvalidStateError("None cannot be used as a state name")
+
     @staticmethod
     def _add_new_state(state_set: Set[FAStateT], start: int = 0) -> int:
         """Adds new state to the state set and returns it"""
